@@ -62,6 +62,57 @@ def mk_cond(c, a, b):
     return ("cond", c, a, b)
 
 
+INFEASIBLE = ("infeasible",)
+
+
+def refine(v, c, pol: bool):
+    """Value term v on a path where condition c evaluated to ``pol``: tests of v decided by that fact are resolved and
+    alternatives that cannot occur on this path are dropped.  Returns INFEASIBLE when no alternative remains."""
+    if not isinstance(v, tuple) or not v:
+        return v
+    if is_const(c):
+        return v if bool(c[1]) == pol else INFEASIBLE
+    if c[0] == "not":
+        return refine(v, c[1], not pol)
+    if c[0] == "cond":
+        p = c[1]
+        a = refine(assume(v, p, True), c[2], pol)
+        b = refine(assume(v, p, False), c[3], pol)
+        if a is INFEASIBLE and b is INFEASIBLE:
+            return INFEASIBLE
+        if a is INFEASIBLE:
+            return b
+        if b is INFEASIBLE:
+            return a
+        return mk_cond(p, a, b)
+    if c[0] == "bool" and ((c[1] == "and" and pol) or (c[1] == "or" and not pol)):
+        # every operand has that truth value
+        for x in c[2]:
+            v = refine(v, x, pol)
+            if v is INFEASIBLE:
+                return v
+        return v
+    return assume(v, c, pol)
+
+
+def _has_cond_spine(v) -> bool:
+    return isinstance(v, tuple) and bool(v) and v[0] == "cond"
+
+
+def refine_env(st, c, pol: bool) -> dict:
+    """Refine the variables of a forked state under c == pol; returns {name: (original, refined)} for those that changed."""
+    changed = {}
+    if is_const(c):
+        return changed
+    for k, v in list(st.env.items()):
+        if _has_cond_spine(v):
+            r = refine(v, c, pol)
+            if r is not INFEASIBLE and r != v:
+                changed[k] = (v, r)
+                st.env[k] = r
+    return changed
+
+
 def mk_not(c):
     if is_const(c):
         return const(not c[1])
@@ -1344,6 +1395,12 @@ class Interp:
             res.live = o2.live
             return res
         ft, fe = st.fork(), st.fork()
+        # path-sensitive refinement: inside a branch, variables are what they can be given the test's outcome
+        rt, re_ = refine_env(ft, c, True), refine_env(fe, c, False)
+        for ch in (rt, re_):
+            for orig, new in ch.values():
+                if orig in self.types and isinstance(new, tuple) and new and new[0] not in ("const", "ref"):
+                    self.types.setdefault(new, self.types[orig])      # the refined value is still that object
         tt: list = []
         te: list = []
         ot = self.exec_block(s.body, ft, tt)
@@ -1361,6 +1418,11 @@ class Interp:
 
         if ot.live is not None and oe.live is not None:
             m = merge_states(c, ot.live, oe.live)
+            # a variable neither branch assigned is, after the if, what it was before it
+            for k in set(rt) | set(re_):
+                orig = (rt.get(k) or re_.get(k))[0]
+                if ot.live.env.get(k) == (rt[k][1] if k in rt else orig) and oe.live.env.get(k) == (re_[k][1] if k in re_ else orig):
+                    m.env[k] = orig
             st.env, st.ext = m.env, m.ext
             if not exits(ot) and not exits(oe):
                 return None
